@@ -1296,8 +1296,12 @@ fn twin_c10_c11_c09() -> R {
     for status in [200u16, 201, 204, 300, 301, 302, 303, 304, 305, 307, 308, 399, 400] {
         for location in [false, true] {
             for body in [false, true] {
+              for srv_close in [false, true] {
                 n += 1;
                 let mut head = format!("HTTP/1.1 {} X\r\n", status);
+                if srv_close {
+                    head.push_str("Connection: close\r\n");
+                }
                 if location {
                     head.push_str("Location: /items/1\r\n");
                 }
@@ -1309,6 +1313,7 @@ fn twin_c10_c11_c09() -> R {
                 }
                 let want_redirect = (300..400).contains(&status) && status != 304;
                 let has_body = body && status != 204 && status != 304;
+                let mut verdicts: Vec<(bool, bool)> = vec![];
                 let got = match rr.proceed() {
                     Some(RecvResponseResult::RecvBody(mut rb)) => {
                         if !has_body {
@@ -1320,21 +1325,23 @@ fn twin_c10_c11_c09() -> R {
                             tagged_fail!("[C09] sized body not complete");
                         }
                         match rb.proceed() {
-                            Some(RecvBodyResult::Redirect(_)) => true,
-                            Some(RecvBodyResult::Cleanup(_)) => false,
+                            Some(RecvBodyResult::Redirect(r)) => { verdicts.push((r.must_close_connection(), r.close_reason().is_some())); true }
+                            Some(RecvBodyResult::Cleanup(c)) => { verdicts.push((c.must_close_connection(), c.close_reason().is_some())); false }
                             None => return Err("[C09] RecvBody::proceed None although can_proceed".into()),
                         }
                     }
-                    Some(RecvResponseResult::Redirect(_)) => {
+                    Some(RecvResponseResult::Redirect(r)) => {
                         if has_body {
                             tagged_fail!("[C09] body skipped: {:?}", head);
                         }
+                        verdicts.push((r.must_close_connection(), r.close_reason().is_some()));
                         true
                     }
-                    Some(RecvResponseResult::Cleanup(_)) => {
+                    Some(RecvResponseResult::Cleanup(c)) => {
                         if has_body {
                             tagged_fail!("[C09] body skipped: {:?}", head);
                         }
+                        verdicts.push((c.must_close_connection(), c.close_reason().is_some()));
                         false
                     }
                     None => return Err("[C09] RecvResponse::proceed None after a response".into()),
@@ -1342,6 +1349,13 @@ fn twin_c10_c11_c09() -> R {
                 if got != want_redirect {
                     tagged_fail!("[C09] successor after {:?}: redirect={} want {}", head, got, want_redirect);
                 }
+                // C10: the verdict is the same function of the close conditions in the redirect and in the cleanup state
+                for (must_close, has_reason) in verdicts {
+                    if must_close != srv_close || has_reason != srv_close {
+                        tagged_fail!("[C10] verdict after {:?} (redirect state: {}): must_close {} reason given {} want {}", head, got, must_close, has_reason, srv_close);
+                    }
+                }
+              }
             }
         }
     }
